@@ -399,6 +399,21 @@ func TestC13(t *testing.T) {
 						mut = "empty_name"
 					}
 				}
+				if rapid.IntRange(0, 7).Draw(t, "longConfiguration") == 0 {
+					// a long configuration: 64-90 plain sub-distributors (a base account swept into a collector each) are
+					// listed in front, so that the generated - and possibly mutated - ones come after position 64
+					var fill []DSub
+					for i, k := 0, rapid.IntRange(64, 90).Draw(t, "fillers"); i < k; i++ {
+						fill = append(fill, DSub{Name: fmt.Sprintf("fill%d", i), Sources: []DAcc{{Type: tBase, Id: FreshAddr(50000 + i).String()}}, Burn: "0",
+							Primary: DAcc{Type: tModule, Id: distrtypes.GovernanceBoosterCollector}})
+					}
+					long := DCfg{Subs: append(fill, n.Subs...)}
+					lp := long.Build()
+					if mut != "valid" || lp.Validate() == nil {
+						n = long
+						c.classes["configuration_of_more_than_64_subdistributors"] = true
+					}
+				}
 				np := n.Build()
 				a := auth()
 				if mut != "valid" {
